@@ -2,4 +2,4 @@ From Coq Require Extraction.
 From Coq Require Import ExtrOcamlBasic.
 From GF Require Import Base.Lit Extract.Checks.
 Extraction Language OCaml.
-Extraction "model.ml" B c11_model c11_spec.
+Extraction "model.ml" B c11_model c11_spec c17_direct_model c17_direct_spec c17_put_model c17_put_spec c17_list_check.
